@@ -20,6 +20,7 @@ class BestScan:
     relation: str  # 'cand<best', 'cand<=best', 'best<cand', 'best<=cand'
     companions: Dict[str, Tuple[Term, Term]] = field(default_factory=dict)  # name -> (init, value on accept)
     others: Dict[str, Tuple[Term, Term]] = field(default_factory=dict)
+    outer_guards: List[Term] = field(default_factory=list)  # guards around the acceptance test
 
 
 def find_best_scans(w: Walker, li: LoopInfo) -> List[BestScan]:
@@ -28,6 +29,11 @@ def find_best_scans(w: Walker, li: LoopInfo) -> List[BestScan]:
         phi = ("phi", li.lid, name)
         if end[0] != "sel" or end[3] != phi:
             continue
+        outer = []
+        # peel guards wrapped around the acceptance: sel(g, sel(acc, cand, phi), phi)
+        while end[0] == "sel" and end[3] == phi and end[2][0] == "sel" and end[2][3] == phi:
+            outer.append(end[1])
+            end = end[2]
         c, cand = end[1], end[2]
         if c[0] != "cmp" or c[1] not in ("<", "<="):
             continue
@@ -38,6 +44,7 @@ def find_best_scans(w: Walker, li: LoopInfo) -> List[BestScan]:
         else:
             continue
         bs = BestScan(li, name, init, cand, c, rel)
+        bs.outer_guards = outer
         for n2, (i2, e2) in li.carried.items():
             if n2 == name:
                 continue
